@@ -23,7 +23,7 @@ PROPS = {
     },
     "C17": {
         "category": "proof",
-        "harness_modes": [],
+        "harness_modes": ["crosscheck"],
         "explanation": "RollbackFailureManager._update_request is proved to raise FailureHandlingException (without counting or notifying) exactly when "
         "version >= max_retries and otherwise to increment the counter by one and send one ROLLBACK notification, preserving version <= max_retries; "
         "get_request is proved to hand back the same request object (the counter is never reset); DummyFailureManager.recover is proved never to return "
